@@ -315,7 +315,7 @@ func c20CheckOne(r *fw.Rec, c, p []int, lim float64) bool {
 func c20(c *fw.Ctx) {
 	c.Rule("RecordPattern/RecordPatternInReverse: seeded random rows of every length 0..300 (all-white, all-black, pixel noise, run structures with max run 2/4/9/40), every start offset, counter lengths 1..10, compared with a run-length model on []bool; PatternMatchVariance: all counter vectors with entries 0..6 for lengths 3..6 (exhaustive) x typical symbology patterns x 15 variance limits (0, 0.2 .. 0.8 as the readers use, 1.0 .. 10 where an empty run can still be within the limit, and 1e300 / MaxFloat64 / +Inf = no individual limit), random vectors with entries up to 40, scale factors 2..9, compared with the contract evaluated exactly (integer arithmetic, cross-checked against big.Rat in the self-test); distinct = distinct rows + distinct (counters, pattern, limit)")
 	c.Assume("DESIGN C20 don't-care regions: reverse recording when the runs begin exactly at index 0; comparisons within 1e-9 relative of the individual-variance limit (except exact ties with an integer unit width and a dyadic limit, where the float computation is exact and the tie counts as within the limit)")
-	rowsPer := c.Pick(10, 100)
+	rowsPer := c.Pick(10, 400)
 	for n := 0; n <= 300; n++ {
 		for k := 0; k < rowsPer; k++ {
 			n := n
@@ -367,7 +367,7 @@ func c20(c *fw.Ctx) {
 	}
 	c.Exhaustive(fmt.Sprintf("PatternMatchVariance counter vectors with entries 0..%d, lengths 3..6, for the listed patterns and limits", maxEntry))
 	// random vectors, larger entries, random patterns, scale invariance
-	nrand := c.Pick(4000, 100000)
+	nrand := c.Pick(4000, 500000)
 	for k := 0; k < nrand; k++ {
 		c.Run(fmt.Sprintf("pmv/rand/%d", k), func(r *fw.Rec) {
 			rng := r.Rng
